@@ -1,0 +1,55 @@
+//go:build verif
+
+// Package vhook holds verification hooks (build tag `verif`).
+//
+// Event reports a linearization point to the installed sink; it is called
+// while the lock that protects the reported state change is still held.
+// Yield is a scheduling point: the installed gate may block the calling
+// goroutine until the verification harness releases it.
+package vhook
+
+import "sync/atomic"
+
+const Enabled = true
+
+type (
+	SinkFunc func(name string, kv []any)
+	GateFunc func(point string, key any)
+)
+
+var (
+	sink atomic.Pointer[SinkFunc]
+	gate atomic.Pointer[GateFunc]
+)
+
+func SetSink(f SinkFunc) {
+	if f == nil {
+		sink.Store(nil)
+		return
+	}
+	sink.Store(&f)
+}
+
+func SetGate(f GateFunc) {
+	if f == nil {
+		gate.Store(nil)
+		return
+	}
+	gate.Store(&f)
+}
+
+func Event(name string, kv ...any) {
+	f := sink.Load()
+	if f == nil {
+		return
+	}
+	(*f)(name, kv)
+}
+
+func Yield(point string, key any) {
+	f := gate.Load()
+	if f == nil {
+		return
+	}
+	(*f)(point, key)
+}
